@@ -1223,6 +1223,10 @@ def _main(a, subprocess):
     results, completed, errors = core.run_pool(_worker, range(a.start, a.start + T['runs']), workers=a.workers,
                                                chunk=T['chunk'], wall_cap=T['wall'], hang_s=300, on_result=on_result)
     explore_s = time.time() - t0
+    slow = sorted(i for i, r in results.items() if 'slow_run' in r)
+    if slow:
+        print(f'[{PROP}] {len(slow)} run(s) set aside after the soft time limit ({core.SOFT_TIMEOUT_S}s): indices {slow[:8]}')
+        probes['slow_runs_set_aside'] += len(slow)
     known = core.load_known(PROP)
     groups = {}
     for t in found:
